@@ -34,6 +34,21 @@ class OtherErr(Exception):
     pass
 
 
+class DataErr(Exception):
+    """An ordinary application exception that happens to expose `data` / `stack_trace` attributes."""
+
+    def __init__(self, msg):
+        super().__init__(msg)
+        self.data = {"code": 7, "blob": b"\x00\x01"}
+        self.stack_trace = 5
+
+
+class JsonDataErr(Exception):
+    def __init__(self, msg):
+        super().__init__(msg)
+        self.data = {"code": 7}
+
+
 EXC = {
     "ValueError": ValueError,
     "KeyError": KeyError,
@@ -41,6 +56,8 @@ EXC = {
     "TypeError": TypeError,
     "UserErr": UserErr,
     "OtherErr": OtherErr,
+    "DataErr": DataErr,
+    "JsonDataErr": JsonDataErr,
     "ExecutionError": X.ExecutionError,
     "InvocationError": X.InvocationError,
     "ValidationError": X.ValidationError,
@@ -352,7 +369,9 @@ class Interp:
             rt.rpc("wfc_strategy", path=path, state=canon(state), attempt=attempt, cont=d[0] == "cont",
                    delay=d[1] if d[0] == "cont" else None)
             if d[0] == "cont":
-                return WaitForConditionDecision.continue_waiting(duration(d[1]))
+                if (attempt + len(path)) % 2:
+                    return WaitForConditionDecision.continue_waiting(duration(d[1]))
+                return WaitForConditionDecision(should_continue=True, delay=duration(d[1]))  # plain constructor, equally public
             return WaitForConditionDecision.stop_polling()
 
         cfg = WaitForConditionConfig(wait_strategy=strategy, initial_state=node.get("init", 0),
